@@ -224,3 +224,63 @@ func TestRegressForeignSlotAddressPanics(t *testing.T) {
 }
 
 func itoa(i int) string { return strconv.Itoa(i) }
+
+// Deterministic scenario (no defect on the repaired tree): a node that is block-syncing / replaying applies a block
+// whose evidence it never had pending — ApplyBlock calls Pool.Update without any CheckEvidence. The evidence must
+// nevertheless count as committed: it is not admitted again, not accepted in a later block (alone or inside a
+// list), and the same offence reported by consensus does not become pending either.
+func TestScenarioCommitNeverPending(t *testing.T) {
+	const name = "TestScenarioCommitNeverPending"
+	f := newFixture(t, 3, 10, time.Hour)
+	dve, err := f.c.DuplicateVote(1, tmproto.PrecommitType, 2, 0, lib.ForgeBlockID("a"), lib.ForgeBlockID("b"))
+	if err != nil {
+		t.Fatal(err)
+	}
+	lca, err := f.c.ForgeAttack(lib.AttackSpec{Shape: lib.Equivocation, ConflictHeight: 1, Signers: all4})
+	if err != nil {
+		t.Fatal(err)
+	}
+	other, err := f.c.DuplicateVote(2, tmproto.PrevoteType, 1, 0, lib.ForgeBlockID("c"), lib.ForgeBlockID("d"))
+	if err != nil {
+		t.Fatal(err)
+	}
+	// only another pool instance ever saw the light-client evidence
+	foreign, _ := evidence.NewPool(dbm.NewMemDB(), f.c.StateStore, f.c.BlockStore)
+	if err := foreign.CheckEvidence(types.EvidenceList{dve, lca}); err != nil {
+		t.Fatalf("valid evidence rejected: %v", err)
+	}
+	if err := f.c.Advance(&lib.HeightPlan{Evidence: types.EvidenceList{dve, lca}}); err != nil { // Update only
+		t.Fatal(err)
+	}
+	lib.Case(name, lib.FP(name), true)
+	pendingHas := func(ev types.Evidence) bool {
+		l, _ := f.pool.PendingEvidence(-1)
+		for _, e := range l {
+			if string(e.Hash()) == string(ev.Hash()) {
+				return true
+			}
+		}
+		return false
+	}
+	for _, ev := range []types.Evidence{dve, lca} {
+		_ = f.pool.AddEvidence(ev)
+		if pendingHas(ev) {
+			t.Fatalf("evidence committed in block %d (never pending here) was admitted again by AddEvidence: %s", f.c.Tip(), describeEv(ev))
+		}
+		if err := f.pool.CheckEvidence(types.EvidenceList{ev}); err == nil {
+			t.Fatalf("evidence committed in block %d (never pending here) is accepted in another block: %s", f.c.Tip(), describeEv(ev))
+		}
+		if err := f.pool.CheckEvidence(types.EvidenceList{other, ev}); err == nil {
+			t.Fatalf("a list containing evidence committed in block %d is accepted: %s", f.c.Tip(), describeEv(ev))
+		}
+		if pendingHas(ev) {
+			t.Fatalf("committed evidence entered the pool through CheckEvidence: %s", describeEv(ev))
+		}
+	}
+	f.pool.ReportConflictingVotes(dve.VoteB, dve.VoteA)
+	f.advance(t, 1)
+	if pendingHas(dve) || int(f.pool.Size()) != 1 { // only `other` (valid, left by the rejected lists) may be pending
+		l, _ := f.pool.PendingEvidence(-1)
+		t.Fatalf("the committed offence became pending again after consensus reported its votes (pending=%d size=%d)", len(l), f.pool.Size())
+	}
+}
